@@ -17,7 +17,14 @@
                                           first content item (cannot occur when reference elements have no children).
    Real tables: C03_charsleaf_inv, C03_originsref_inv (all table sets), C03_inv_refchars, C03_refchars_real [F],
    C03_inv_real / C03_histories_real: on RT only Known_failed_reparent can break TreeInv.
-   Extended alphabet: C03_core_inv2_partial (pending: OpLoad).
+   Extended alphabet op2 (Tree/Script2.v: + sort, duplicate, load, set_version, check_version_compatibility, serialize):
+     C03_core_inv2 / C03_core_histories2: Core is preserved by EVERY op2 outside the two classes of OpLoad (Tree/InvLoad.v)
+       Known_load_shared   : FINDING (confirmed on the library, findings/C03-merge-shared-partner-dag.json): the merge
+                             walk makes one incoming element the partner of two model elements, or imports an incoming
+                             element and later merges it; an element ends up in two content lists
+                             (witness C03_load_shared_refuted, the class is decided by an instrumented re-run);
+       Known_load_rejected : the load returns InvalidFileMerge (rollback path; not covered);
+     C03_core_inv2_partial: the earlier statement without OpLoad.  C03_load_master_core: non-vacuity.
    Navigation: C03_position*, C03_walk_preorder, C03_dfs_ids_preorder, C03_iter_dfs*, C03_no_fuel_*.
    Stale handles: C03_live_or_detached, C03_detached_not_live, C03_stale*, (DetFiles = detached chains carry no local
    file sets; needed only by the four requests that ask for min_version and not for the model).
@@ -28,7 +35,8 @@ From AV Require Import Base.Bytes Base.Outcome Hash.HashModel Tree.Heap Tree.Ops
   Tree.InvProofsTree Tree.InvProofsNav Tree.InvProofs Tree.StaleProofs Tree.IterProofs Tree.IterProofsFile
   Tree.InvProofsDetFiles Tree.InvProofsDetFilesMain Tree.InvProofsOp2 Tree.InvExamples
   Tree.InvProofsChars Tree.InvProofsChars5 Tree.InvProofsOrigins3 Tree.InvProofsReal Tree.InvProofsRealTables Spec.SpecReal.
-From AV Require Import Tree.Script2.
+From AV Require Import Tree.Script2 Tree.InvLoad Tree.InvProofsOp2Full Tree.InvProofsLoadExamples.
+From AV Require Tree.Load Tree.MergeSpec.
 Open Scope string_scope.
 Open Scope list_scope.
 Open Scope N_scope.
@@ -80,6 +88,54 @@ Theorem C03_core_inv2_partial :
     run_op2 T tab_el tab_at tab_en check_fn float_parse float_fmt LATEST name_index name_definition_ref
             attr_schema_location root_attrs o w = Val (r, w') -> Core w'.
 Proof. exact Core_step2_partial. Qed.
+
+(* the WHOLE alphabet op2: OpLoad included, outside Known_load = Known_load_shared || Known_load_rejected *)
+Theorem C03_core_inv2 :
+  forall (T : tables) (tab_el tab_at tab_en : nametab) (check_fn : N -> list N -> res bool)
+         (float_parse : list N -> option N) (float_fmt : N -> list N)
+         (LATEST name_index name_definition_ref attr_schema_location : N) (root_attrs : list (N * cdata))
+         (o : op2) (w : world) (r : out value2) (w' : world),
+    Known_load T tab_el tab_at tab_en check_fn float_parse float_fmt LATEST name_index name_definition_ref
+               attr_schema_location root_attrs w o = false ->
+    Core w ->
+    run_op2 T tab_el tab_at tab_en check_fn float_parse float_fmt LATEST name_index name_definition_ref
+            attr_schema_location root_attrs o w = Val (r, w') -> Core w'.
+Proof. exact Core_step2. Qed.
+
+Theorem C03_core_histories2 :
+  forall (T : tables) (tab_el tab_at tab_en : nametab) (check_fn : N -> list N -> res bool)
+         (float_parse : list N -> option N) (float_fmt : N -> list N)
+         (LATEST name_index name_definition_ref attr_schema_location : N) (root_attrs : list (N * cdata))
+         (l : list op2) (w w' : world),
+    Core w ->
+    clean_load_ops2 T tab_el tab_at tab_en check_fn float_parse float_fmt LATEST name_index name_definition_ref
+                    attr_schema_location root_attrs l w = true ->
+    run_ops2 T tab_el tab_at tab_en check_fn float_parse float_fmt LATEST name_index name_definition_ref
+             attr_schema_location root_attrs l w = Val w' -> Core w'.
+Proof. exact Core_histories2. Qed.
+
+(* the class Known_load_shared is real (tiny tables of Tree/MergeSpec.v): both loads succeed, afterwards node 14 is
+   listed by the nodes 6 and 7 and its parent link names 7: Core fails; merge_shared flags the second load *)
+Theorem C03_load_shared_refuted :
+  MergeSpec.TinyM.load_tree "a" shared_a MergeSpec.TinyM.new_world = Val (OK 0, w_shared_a) /\
+  MergeSpec.TinyM.load_tree "b" shared_b w_shared_a = Val (OK 1, w_shared_b) /\
+  lists w_shared_b 6 14 /\ lists w_shared_b 7 14 /\ par w_shared_b 14 7 /\ ~ par w_shared_b 14 6 /\
+  ~ Core w_shared_b.
+Proof. exact load_shared_refuted. Qed.
+
+Theorem C03_load_shared_flagged :
+  exists t w1 x,
+    Load.install PNone shared_b w_shared_a = Val (OK t, w1) /\
+    nth_opt (w_models w_shared_mp) 0 = Some x /\ is_empty (m_files x) = false /\
+    merge_shared MergeSpec.TinyM.tiny MergeSpec.TinyM.LATEST MergeSpec.TinyM.DEFREF (fuel_of w_shared_mp) (m_root x)
+                 (fold_right set_add [] (m_files x)) (Load.it_id t) (N.of_nat (List.length (w_files w_shared_a))) w_shared_mp = true.
+Proof. exact load_shared_flagged. Qed.
+
+(* non-vacuity: the two files of MergeSpec.TinyM.master, one merged into the other; Core by the theorem *)
+Theorem C03_load_master_core :
+  MergeSpec.TinyM.load_tree "f0" MergeSpec.TinyM.file0 MergeSpec.TinyM.new_world = Val (OK 0, w_f0) /\
+  MergeSpec.TinyM.load_tree "f1" MergeSpec.TinyM.file1 w_f0 = Val (OK 1, w_f01) /\ Core w_f01.
+Proof. exact load_master_core. Qed.
 
 (* ---------- the artefact classes are empty on the real tables ---------- *)
 (* CharsLeaf: an element whose content mode is Characters has no sub-elements; kept by every operation, every table set *)
